@@ -41,6 +41,13 @@ def run(d):
         shutil.rmtree(t, ignore_errors=True)
 
 
+import json
+respath = os.path.join(ROOT, "seeded", "RESULTS.json")
+results = json.load(open(respath)) if os.path.exists(respath) else {}
+head = subprocess.run("git -C /repo rev-parse --short HEAD", shell=True, capture_output=True, text=True).stdout.strip()
+vhead = subprocess.run("git -C %s rev-parse --short HEAD" % ROOT, shell=True, capture_output=True, text=True).stdout.strip()
 with ThreadPoolExecutor(jobs) as ex:
     for name, res in ex.map(run, dirs):
         print(name, res, flush=True)
+        results[name] = {"result": res.split(" rc=")[0], "detail": res, "repo": head, "verif": vhead}
+json.dump(results, open(respath, "w"), indent=1, sort_keys=True)
